@@ -5,7 +5,7 @@ import vlib
 MC = """SPECIFICATION Spec
 CONSTANTS Actors = {actors} Docs = {docs} MaxVal = 2 MaxSteps = {steps}
 VIEW view
-INVARIANTS OwnerReads AnonSeesOnlyPublic UpdateImpliesRead NonInterference
+INVARIANTS OwnerReads AnonSeesOnlyPublic UpdateImpliesRead NonInterference SubNonInterference
 PROPERTIES RefusedChangesNothing
 CHECK_DEADLOCK FALSE
 """
@@ -31,12 +31,12 @@ def check(run, replay):
             if not os.path.exists(out):
                 raise vlib.Infra("no ACP behaviours exported")
             files.append(out)
-    viol, tot = [], dict(behaviours=0, steps=0, requests=0, refused_attempts=0)
+    viol, tot = [], dict(behaviours=0, steps=0, requests=0, refused_attempts=0, subscription_behaviours=0, subscription_results=0, subscription_silences_checked=0)
     kinds = {}
     for i, f in enumerate(files):
         out = os.path.join(run.tmp, "acpres-%d.json" % i)
         try:
-            run.run_driver(binary, ["-beh", f, "-out", out] + (["-full"] if replay else ["-budget", "500s", "-full"] if thorough else ["-budget", "80s"]), timeout=4000)
+            run.run_driver(binary, ["-beh", f, "-out", out] + (["-full", "-sub", "1"] if replay else ["-budget", "500s", "-full", "-sub", "3"] if thorough else ["-budget", "80s", "-sub", "4"]), timeout=4000)
         except vlib.Crash as c:
             viol.append({"kind": "node-panic", "msg": "DefraDB died under an ACP request: %s\n%s" % (c.head, c.stack[:1500])})
             continue
@@ -59,8 +59,9 @@ def check(run, replay):
         L = vshow.load(files[0], maximal=False)
         sample = [[{k: s[k] for k in ("op", "a", "d", "v", "r", "b", "res")} for s in L[0]]]
     cov = {"traces_validated_against_impl": tot["behaviours"], "steps": tot["steps"], "requests": tot["requests"], "requests_by_kind": kinds,
-           "refused_attempts": tot["refused_attempts"], "samples": sample or [["replay"]],
+           "refused_attempts": tot["refused_attempts"], "subscription_behaviours": tot["subscription_behaviours"], "subscription_results": tot["subscription_results"],
+           "subscription_silences_checked": tot["subscription_silences_checked"], "samples": sample or [["replay"]],
            "rule": "TLC behaviours of ACP.tla (creates by 3 identities or anonymously, grant/revoke of reader/updater/deleter, authorised and unauthorised update/delete attempts); after every step each of the 4 requesters issues 15 request kinds (listing, indexed filter, order+limit, aggregates, grouping, showDeleted, _version, commits for all / by docID / by cid, latestCommits, docID lookup, time-travel read, GetAllDocIDs, collection.Get) and each must equal the same request evaluated over Visible(requester)"}
     run.finish("model_checking", viol, cov,
                ["local in-memory document ACP (acp/dac local engine) with one policy: read = owner+reader+updater+deleter, update = owner+updater, delete = owner+deleter",
-                "subscriptions and peer-to-peer access checks (bitswap, pubsub) are not covered by this check yet"])
+                "peer-to-peer access checks (bitswap, pubsub) are not covered by this check; the subscription route is (every 4th behaviour, one subscription per requester)"])
